@@ -12,9 +12,10 @@ View == vals
 H(op, args, a, b) == [op |-> op, args |-> args, a |-> a, b |-> b]
 NoPrefix == <<>>
 \* values with shared history and spare capacity, all reachable through the exported API:
-\*  #1 {1,2}  #2 = #1.Insert(2) (nothing to insert)  #3 {3}  #4 {4}  #5 {2,3} built from duplicates  #6 map 1->1, 2->2
+\*  #1 {1,2}  #2 = #1.Insert(2) (nothing to insert)  #3 {3}  #4 {4}  #5 {2,3} built from duplicates  #6 map 1->1, 2->2  #7, #8 the package-level empty set / map
 SharedPrefix == << H("NewIntSet", <<1, 2>>, 0, 0), H("Insert", <<2>>, 1, 0), H("NewIntSet", <<3>>, 0, 0),
-                   H("NewIntSet", <<4>>, 0, 0), H("NewIntSet", <<2, 2, 3>>, 0, 0), H("NewIntMap", <<1, 1, 2, 2>>, 0, 0) >>
+                   H("NewIntSet", <<4>>, 0, 0), H("NewIntSet", <<2, 2, 3>>, 0, 0), H("NewIntMap", <<1, 1, 2, 2>>, 0, 0),
+                   H("EmptyIntSet", <<>>, 0, 0), H("EmptyIntMap", <<>>, 0, 0) >>
 
 ObsRec(val) == [t |-> val.t, o |-> Observe(val)]
 Export ==
